@@ -9,7 +9,7 @@ def proj(kind, d):
 
 
 def cases(tier, rng):
-    for _ in range(250 if tier == "quick" else 3000):
+    for _ in range(250 if tier == "quick" else 20000):
         yield dstprops.c05_case(rng)
 
 
